@@ -1667,9 +1667,23 @@ class CodeGenerator(NodeVisitor):
         # it is only valid if it references a Namespace object. Emit a check for
         # that for each ref here, before assignment code is emitted. This can't
         # be done in visit_NSRef as the ref could be in the middle of a tuple.
+        self._namespace_checks(node.target, frame)
+        self.newline(node)
+        self.visit(node.target, frame)
+        self.write(" = ")
+        self.visit(node.node, frame)
+        self.pop_assign_tracking(frame)
+
+    def _namespace_checks(self, target: nodes.Expr, frame: Frame) -> None:
+        """Emit a check that each ``a.b`` assignment target refers to a
+        Namespace object.
+        """
         seen_refs: set[str] = set()
 
-        for nsref in node.find_all(nodes.NSRef):
+        for nsref in chain(
+            [target] if isinstance(target, nodes.NSRef) else [],
+            target.find_all(nodes.NSRef),
+        ):
             if nsref.name in seen_refs:
                 # Only emit the check for each reference once, in case the same
                 # ref is used multiple times in a tuple, `ns.a, ns.b = c, d`.
@@ -1685,12 +1699,6 @@ class CodeGenerator(NodeVisitor):
             )
             self.outdent()
 
-        self.newline(node)
-        self.visit(node.target, frame)
-        self.write(" = ")
-        self.visit(node.node, frame)
-        self.pop_assign_tracking(frame)
-
     def visit_AssignBlock(self, node: nodes.AssignBlock, frame: Frame) -> None:
         self.push_assign_tracking()
         block_frame = frame.inner()
@@ -1702,6 +1710,7 @@ class CodeGenerator(NodeVisitor):
         self.enter_frame(block_frame)
         self.buffer(block_frame)
         self.blockvisit(node.body, block_frame)
+        self._namespace_checks(node.target, frame)
         self.newline(node)
         self.visit(node.target, frame)
         self.write(" = (Markup if context.eval_ctx.autoescape else identity)(")
